@@ -437,7 +437,8 @@ pub async fn apply(w: &mut World, p: &Plugin, rng: &mut Rng, act: &str) -> Step 
         if let Some(i) = n.parked.iter().position(|q| q.served.is_none() && q.method == "pay" && oinv.as_ref().map(|i| q.params["bolt11"].as_str() != Some(i.as_str())).unwrap_or(true)) {
             let r: Reply = if let Some(x) = k.strip_prefix("complete") { Ok(node::pay_reply_json(&hh, "complete", x.parse().unwrap(), false)) }
                 else if k == "pending" { Ok(node::pay_reply_json(&hh, "pending", 0, false)) } else if k == "failed" { Ok(node::pay_reply_json(&hh, "failed", 0, false)) }
-                else if k == "failedwarn" { Ok(node::pay_reply_json(&hh, "failed", 0, true)) } else { Err((Some(210), "Ran out of routes to try".into())) };
+                else if k == "failedwarn" { Ok(node::pay_reply_json(&hh, "failed", 0, true)) }
+                else if k == "conn" { Err((Some(node::CONNECT), "Connection refused".into())) } else { Err((Some(210), "Ran out of routes to try".into())) };
             n.parked[i].served = Some(r);
             n.pay_running.insert(hh, 0);
         }
@@ -448,12 +449,14 @@ pub async fn apply(w: &mut World, p: &Plugin, rng: &mut Rng, act: &str) -> Step 
         if let Some((i, _, _)) = toks.iter().find(|t| t.1 == tok && !t.2) {
             let mut n = w.node.lock().unwrap();
             let (m, pr) = (n.parked[*i].method.clone(), n.parked[*i].params.clone());
+            // shape of an injected failure: an error object with code -1, or (every third request) the connection could not be opened
+            let fcode = if n.parked[*i].seq % 3 == 2 { node::CONNECT } else { -1 };
             let r: Option<Reply> = match kind {
                 "s" => { let mut r = n.serve_truthful(&m, &pr); if let Some(Err((Some(203), msg))) = &r { r = Some(Err((Some(*rng.pick(&[202, 203, 204, 208, 209])), msg.clone()))); } r }
-                "fR" => Some(Err((Some(-1), "injected: write refused".into()))),
-                "fA" => { let _ = n.serve_truthful(&m, &pr); Some(Err((Some(-1), "injected: applied but reported failed".into()))) }
+                "fR" => Some(Err((Some(fcode), "injected: write refused".into()))),
+                "fA" => { let _ = n.serve_truthful(&m, &pr); Some(Err((Some(fcode), "injected: applied but reported failed".into()))) }
                 "fL" => { let key: Vec<String> = serde_json::from_value(pr["key"].clone()).unwrap_or_default(); let g = n.ds.get(&key).map(|x| x.1 + 1).unwrap_or(0); Some(Ok(json!({"key": key, "generation": g, "string": pr["string"]}))) }
-                _ => Some(Err((Some(-1), "injected: read failed".into()))),
+                _ => Some(Err((Some(fcode), "injected: read failed".into()))),
             };
             if let Some(r) = r { n.parked[*i].served = Some(r); }
             drop(n);
@@ -518,7 +521,7 @@ pub fn candidates(w: &mut World, rng: &mut Rng, g: &Gen, step: usize) -> Vec<Str
     let (parts, running) = { let n = w.node.lock().unwrap(); (n.parts_of(&w.hash_hex), n.pay_running.get(&w.hash_hex).copied().unwrap_or(0) > 0) };
     for (_, tok, served) in &toks {
         if *served { for _ in 0..4 { c.push(format!("d:{}", tok)); } continue; }
-        if tok == "pay" { if running { for k in ["pending", "failed", "failedwarn", "err"] { c.push(format!("pe:{}", k)); } if parts.iter().any(|p| p.st == PSt::Complete(PRE)) { for _ in 0..4 { c.push(format!("pe:complete{}", PRE)); } } } continue; }
+        if tok == "pay" { if running { for k in ["pending", "failed", "failedwarn", "err", "conn"] { c.push(format!("pe:{}", k)); } if parts.iter().any(|p| p.st == PSt::Complete(PRE)) { for _ in 0..4 { c.push(format!("pe:complete{}", PRE)); } } } continue; }
         let waiting_on_pending = tok.starts_with('w') && !tok.starts_with("ws") && !tok.starts_with("wa") && { let id: u64 = tok[1..].split('#').next().unwrap().parse().unwrap_or(0); parts.iter().any(|p| p.id == id && p.st == PSt::Pending) };
         if !waiting_on_pending { for _ in 0..4 { c.push(format!("s:{}", tok)); } }
         let is_write = tok.starts_with("ws") || tok.starts_with("wa");
@@ -851,7 +854,7 @@ fn enumerate_restart(ctx: &mut Ctx, rng: &mut Rng, sock: &str) {
             let outs = if nparts == 1 { &outcomes1 } else { &outcomes2 };
             for restart in [true, false] {
                 // how the plugin gets into wait_payment: after a crash (replayed HTLC) or because pay returned without a result
-                let enter: Vec<String> = if restart { vec!["cr".into(), ar.clone(), "s:dl".into(), "d:dl".into()] } else { vec![(*rng.pick(&["pe:pending", "pe:failed", "pe:failedwarn", "pe:err"])).to_string(), "d:pay".into()] };
+                let enter: Vec<String> = if restart { vec!["cr".into(), ar.clone(), "s:dl".into(), "d:dl".into()] } else { vec![(*rng.pick(&["pe:pending", "pe:failed", "pe:failedwarn", "pe:err", "pe:conn"])).to_string(), "d:pay".into()] };
                 for between in [false, true] {
                     for o in outs.iter() {
                         let mut sc = pre.clone(); sc.extend(creates.iter().cloned()); sc.extend(enter.iter().cloned());
